@@ -366,3 +366,49 @@ def req_rep(name, transport="tcp", n=30, sizes=(64,), uring=False):
     return {"name": name, "uring": uring, "deadline_ms": 60000,
             "sockets": [{"name": "req", "type": "REQ", "opts": o_}, {"name": "rep", "type": "REP", "opts": o_}],
             "tasks": [{"name": "rep", "ops": rep_ops}, {"name": "req", "ops": req_ops}]}
+
+
+# ---- PUB/SUB (C12) ------------------------------------------------------------------
+def pubsub_filter(name, transport, subs_phases, uring=False):
+    """subs_phases: list of (ops, topics_to_publish) - ops are ('sub'|'unsub', topic-bytes) applied
+    before the phase's messages are published. Topics are bytes; a message is <topic>#<id>|fill."""
+    ep = endpoint(transport, name)
+    sub_ops = [{"op": "barrier", "name": "bound", "parties": 2}, {"op": "connect", "sock": "sub", "ep": "$ep"}, {"op": "sleep", "ms": 150}]
+    pub_ops = [{"op": "bind", "sock": "pub", "ep": ep, "save": "ep"}, {"op": "barrier", "name": "bound", "parties": 2}]
+    k = 0
+    for pi, (ops, topics) in enumerate(subs_phases):
+        for (o, t) in ops:
+            sub_ops.append({"op": "opt", "sock": "sub", "id": SUBSCRIBE if o == "sub" else UNSUBSCRIBE, "kind": "hex", "value": bytes(t).hex()})
+        sub_ops.append({"op": "barrier", "name": "ph%d" % pi, "parties": 2})
+        pub_ops.append({"op": "barrier", "name": "ph%d" % pi, "parties": 2})
+        pub_ops.append({"op": "sleep", "ms": 60})
+        for t in topics:
+            k += 1
+            # first frame = topic bytes + marker; second frame carries the id (filter is on the first frame only)
+            pub_ops.append({"op": "send_mp", "sock": "pub", "mid": "p:%d" % k, "sizes": [24], "prefix_hex": [bytes(t).hex()], "timeout_ms": 3000})
+        # drain what arrives in this phase
+        sub_ops.append({"op": "recv_n", "sock": "sub", "n": len(topics) + 1, "timeout_ms": 350, "multipart": True})
+        sub_ops.append({"op": "barrier", "name": "ph%d_done" % pi, "parties": 2})
+        pub_ops.append({"op": "barrier", "name": "ph%d_done" % pi, "parties": 2})
+    o_ = [i32(IO_URING_SESSION_ENABLED, 1)] if uring else []
+    return {"name": name, "uring": uring, "deadline_ms": 60000,
+            "sockets": [{"name": "pub", "type": "PUB", "opts": o_}, {"name": "sub", "type": "SUB", "opts": o_}],
+            "tasks": [{"name": "pub", "ops": pub_ops}, {"name": "sub", "ops": sub_ops}]}
+
+
+def pubsub_stall(name, transport="tcp", n=500, size=65536, uring=False):
+    """Two subscribers, one of which completes the handshake and never reads."""
+    ep = endpoint(transport, name)
+    o_ = [i32(IO_URING_SESSION_ENABLED, 1)] if uring else []
+    return {"name": name, "uring": uring, "deadline_ms": 60000,
+            "sockets": [{"name": "pub", "type": "PUB", "opts": o_ + [i32(SNDHWM, 16)]},
+                        {"name": "good", "type": "SUB", "opts": o_ + [[SUBSCRIBE, "str", ""]]},
+                        {"name": "stalled", "type": "SUB", "opts": o_ + [[SUBSCRIBE, "str", ""]]}],
+            "tasks": [{"name": "pub", "ops": [{"op": "bind", "sock": "pub", "ep": ep, "save": "ep"},
+                                             {"op": "barrier", "name": "go", "parties": 3}, {"op": "sleep", "ms": 400},
+                                             {"op": "send_n", "sock": "pub", "prefix": "p", "n": n, "sizes": [size], "pace_us": 300, "timeout_ms": 6000, "stop_on_err": True},
+                                             {"op": "mark", "name": "pub_done"}]},
+                      {"name": "good", "ops": [{"op": "barrier", "name": "go", "parties": 3}, {"op": "connect", "sock": "good", "ep": "$ep"},
+                                              {"op": "recv_n", "sock": "good", "n": n, "timeout_ms": 4000}]},
+                      {"name": "stalled", "ops": [{"op": "barrier", "name": "go", "parties": 3}, {"op": "connect", "sock": "stalled", "ep": "$ep"},
+                                                 {"op": "sleep", "ms": 1000}]}]}
